@@ -824,7 +824,10 @@ hdf_xdr_NCvdata(NC *handle, NC_var *vp, unsigned long where, nc_type type, uint3
     /* the element may already have been opened (by a read) when the first write
        asked for its length to be set: hdf_get_vp_aid did not see the request */
     if (vp->set_length == TRUE) {
-        Hsetlength(vp->aid, vp->len);
+        if (Hsetlength(vp->aid, vp->len) == FAIL) {
+            ret_value = FAIL;
+            goto done;
+        }
         vp->set_length = FALSE;
     }
 
